@@ -154,7 +154,7 @@ def draw_config(ch, variant):
     cfg["server_max_data"] = (1048576, 1048576, 4000, 20000)[c.choose(4)]
     cfg["server_max_stream_data"] = (1048576, 1048576, 2000, 20000)[c.choose(4)]
     cfg["cc"] = ("reno", "cubic")[c.choose(2)]
-    cfg["echo_chunk"] = (0, 0, 7, 1000, 4096)[c.choose(5)]  # 0 = read() until EOF, then echo
+    cfg["echo_chunk"] = (0, 0, 50, 1000, 4096)[c.choose(5)]  # 0 = read() until EOF, then echo
     cfg["server_ip"] = SERVER_IP
     cfg["max_callbacks"] = 120000
     return cfg
@@ -545,43 +545,58 @@ class Harness:
 
     async def echo(self, reader, writer):
         chunk = self.cfg["echo_chunk"]
-        got = bytearray()
+        state = {"n": 0, "want": None}
         if chunk == 0:
-            got += await reader.read()
-            self.check_server_read(got, writer, True)
-            writer.write(bytes(got))
+            data = await reader.read()
+            self.check_server_read(state, data, writer, True)
+            writer.write(data)
         else:
+            head = bytearray()
             while True:
                 data = await reader.read(chunk)
                 if not data:
                     break
-                got += data
-                self.check_server_read(got, writer, False)
+                if state["want"] is None and state["n"] + len(head) < 8:
+                    # wait for the 8-byte self-description before judging
+                    head += data
+                    if len(head) >= 8:
+                        self.check_server_read(state, bytes(head), writer, False)
+                else:
+                    self.check_server_read(state, data, writer, False)
                 writer.write(data)
-            self.check_server_read(got, writer, True)
+            self.check_server_read(state, b"", writer, True)
         writer.write_eof()
 
-    def check_server_read(self, got, writer, at_eof):
+    def check_server_read(self, state, data, writer, at_eof):
         """oracle 1, client -> server direction (streams of >= 8 bytes describe themselves)"""
-        if len(got) < 8 or got[0:1] != b"C":
-            return
-        client, k, n = got[1], int.from_bytes(got[2:4], "big"), int.from_bytes(got[4:8], "big")
-        if client >= len(self.clients) or n > 200000:
-            self.flag(Violation("c19.stream-bytes", "server-wrong-bytes",
-                                "server reader returned a stream header no client wrote: %s" % bytes(got[:8]).hex()))
-            return
-        want = make_request(client, k, n)
-        if bytes(got) != want[:len(got)] or len(got) > n:
+        want = state["want"]
+        if want is None:
+            if state["n"] or len(data) < 8 or data[0:1] != b"C":
+                state["n"] += len(data)
+                return
+            client, k, n = data[1], int.from_bytes(data[2:4], "big"), int.from_bytes(data[4:8], "big")
+            if client >= len(self.clients) or n > 200000:
+                self.flag(Violation("c19.stream-bytes", "server-wrong-bytes",
+                                    "server reader returned a stream header no client wrote: %s" % bytes(data[:8]).hex()))
+                state["n"] += len(data)
+                return
+            want = state["want"] = make_request(client, k, n)
+            state["id"] = (client, k)
+        off = state["n"]
+        state["n"] = off + len(data)
+        n = len(want)
+        client, k = state["id"]
+        if data != want[off:off + len(data)] or state["n"] > n:
             self.flag(Violation("c19.stream-bytes", "server-wrong-bytes",
                                 "t=%.6f: stream %d of client %d: the server's reader returned %d bytes that are not "
-                                "a prefix of the %d bytes written" % (self.loop.time(), k, client, len(got), n)))
-        elif at_eof and len(got) < n:
+                                "a prefix of the %d bytes written" % (self.loop.time(), k, client, state["n"], n)))
+        elif at_eof and state["n"] < n:
             proto = writer.transport.protocol
             if not proto.v_terminated:
                 self.flag(Violation("c19.stream-bytes", "server-eof-before-all-bytes",
                                     "t=%.6f: stream %d of client %d: the server's reader signalled EOF after %d of "
                                     "%d bytes although its connection has not terminated" % (
-                                        self.loop.time(), k, client, len(got), n)))
+                                        self.loop.time(), k, client, state["n"], n)))
             else:
                 self.probes["server_short_read_after_termination"] += 1
 
